@@ -23,6 +23,53 @@ Theorem C20_sint_len : forall v,
   Z.of_nat (length (sint_bits v)) = signed_exp_golomb_length v /\ signed_exp_golomb_length_dom v = true.
 Proof. exact (fun v => conj (sint_bits_length v) (signed_exp_golomb_length_dom_ok v)). Qed.
 
+(* ---- the writer: in-range values are accepted and append exactly these bits; tell() advances by
+   exactly their number.  `w_writes m s l`: m raises nothing, the bits produced so far (`w_view`)
+   grow by l, tell() advances by length l.  `w_wf` = class invariant (0 <= next_bit <= 7, the
+   write position is inside or at the end of the file). ---- *)
+Theorem C20_write_nbits : forall n v s, w_wf s -> w_rem s = None -> 0 <= n -> 0 <= v < 2 ^ n ->
+  w_writes (w_write_nbits n v s) s (nbits_list (Z.to_nat n) v).
+Proof. exact w_nbits_writes. Qed.
+Theorem C20_write_uint : forall v s, w_wf s -> w_rem s = None -> 0 <= v ->
+  w_writes (w_write_uint v s) s (uint_bits v).
+Proof. exact w_uint_writes. Qed.
+Theorem C20_write_sint : forall v s, w_wf s -> w_rem s = None ->
+  w_writes (w_write_sint v s) s (sint_bits v).
+Proof. exact w_sint_writes. Qed.
+Theorem C20_write_bitarray : forall n (l : list bool) s, w_wf s -> w_rem s = None -> Z.of_nat (length l) <= n ->
+  w_writes (w_write_bitarray n l s) s (bitarray_bits n l) /\ Z.of_nat (length (bitarray_bits n l)) = n.
+Proof. exact w_bitarray_writes. Qed.
+Theorem C20_write_bytes : forall n (l : list Z) s, w_wf s -> w_rem s = None -> Z.of_nat (length l) <= n ->
+  Forall (fun b => 0 <= b < 256) l ->
+  w_writes (w_write_bytes n l s) s (flat_map (nbits_list 8) (bytes_padded n l)) /\
+  Z.of_nat (length (bytes_padded n l)) = n.
+Proof. exact w_bytes_writes. Qed.
+
+(* what an append-only writer has flushed is what a reader opened on the file sees (plus < 8 padding
+   bits, all zero when the unused low bits of the current byte are zero, as after construction) *)
+Theorem C20_flushed_file_is_view : forall s, w_wf s -> w_pos s = flen (w_file s) ->
+  exists pad, r_view (r_init (w_file (w_flush s)) 0) = w_view s ++ pad /\
+              d_view (d_init (w_file (w_flush s)) 0) = w_view s ++ pad /\ (length pad < 8)%nat /\
+              (low_bits_zero s -> Forall (fun b => b = false) pad).
+Proof. exact flushed_file_reader_view. Qed.
+
+(* ---- out-of-range values: OutOfRangeError and NOTHING changes (file, position, block counter);
+   exactly the out-of-range values (for every width n, negative widths included: 2^n = 0 then) ---- *)
+Theorem C20_out_of_range_nbits : forall n v s,
+  (v < 0 \/ 2 ^ n <= v) -> w_write_nbits n v s = (s, Some EOutOfRange).
+Proof. exact w_nbits_out_of_range. Qed.
+Theorem C20_out_of_range_uint_lit : forall n v s,
+  (v < 0 \/ 2 ^ (n * 8) <= v) -> w_write_uint_lit n v s = (s, Some EOutOfRange).
+Proof. exact w_uint_lit_out_of_range. Qed.
+Theorem C20_out_of_range_uint : forall v s, v < 0 -> w_write_uint v s = (s, Some EOutOfRange).
+Proof. exact w_uint_out_of_range. Qed.
+Theorem C20_out_of_range_bitarray : forall n l s,
+  n < Z.of_nat (length l) -> w_write_bitarray n l s = (s, Some EOutOfRange).
+Proof. exact w_bitarray_out_of_range. Qed.
+Theorem C20_out_of_range_bytes : forall n l s,
+  n < Z.of_nat (length l) -> w_write_bytes n l s = (s, Some EOutOfRange).
+Proof. exact w_bytes_out_of_range. Qed.
+
 (* ---- BitstreamReader reads back what was written, at the same positions (all values) ---- *)
 Theorem C20_nbits_roundtrip_bitstream_reader : forall n v s rest,
   r_wf s -> r_rem s = None -> 0 <= n -> 0 <= v < 2 ^ n ->
@@ -84,11 +131,10 @@ Theorem C20_bounded_block_end_value : forall r w k,
 Proof. exact (fun r w k => conj (block_end_value_r r k) (block_end_value_w w k)). Qed.
 
 (* ---- both readers agree: for EVERY byte string, every block length >= 0 and every program of
-   primitive reads (bit, nbits n, uint_lit n, uint, sint, bounded blocks read with the bounded
-   primitives and closed as the validator / the deserialiser close them): same values, same
-   tell() after every primitive, same EOF class, same final position.  `blocks_nonneg p` =
-   all block lengths >= 0 and no PAlign (byte_align vs SerDes.byte_align is covered by the
-   correspondence run and the oracle only). ---- *)
+   primitive reads (bit, nbits n, uint_lit n, uint, sint, byte_align, bounded blocks read with the
+   bounded primitives and closed as the validator [flush_inputb] / the deserialiser
+   [bounded_block_end + read the unused bits] close them): same values, same tell() after
+   every primitive, same EOF class, same final position.  `blocks_nonneg p` = all block lengths >= 0. ---- *)
 Theorem C20_readers_agree : forall f p, blocks_nonneg p -> r_run p (r_init f 0) = d_run p (d_init f 0).
 Proof. exact readers_agree. Qed.
 
@@ -101,6 +147,52 @@ Proof. exact readers_differ_negative. Qed.
 Theorem C20_decoder_block_lengths_nonneg : forall n s s' y left,
   d_read_nbits n s = (s', Ok y) -> (y >? left) = false -> 0 <= y /\ 0 <= left - y.
 Proof. exact d_block_lengths_nonneg. Qed.
+
+(* ---- uint_lit ---- *)
+Theorem C20_uint_lit_roundtrip : forall n v,
+  0 <= n -> 0 <= v < 2 ^ (n * 8) ->
+  (forall s, w_wf s -> w_rem s = None -> w_writes (w_write_uint_lit n v s) s (nbits_list (Z.to_nat (n * 8)) v)) /\
+  (forall s rest, r_wf s -> r_rem s = None -> r_view s = nbits_list (Z.to_nat (n * 8)) v ++ rest ->
+                  r_reads (r_read_uint_lit n s) s v (Z.to_nat (n * 8)) rest) /\
+  (forall s rest, d_wf s -> d_view s = nbits_list (Z.to_nat (n * 8)) v ++ rest ->
+                  d_reads (d_read_uint_lit n s) s v (Z.to_nat (n * 8)) rest).
+Proof. exact uint_lit_roundtrip. Qed.
+
+(* ---- tell / seek ---- *)
+Theorem C20_offsets_inverse : forall bytes bits t, 0 <= bits <= 7 ->
+  from_bit_offset (to_bit_offset bytes bits) = (bytes, bits) /\
+  (let '(by_, bi) := from_bit_offset t in to_bit_offset by_ bi = t /\ 0 <= bi <= 7).
+Proof. exact (fun bytes bits t H => conj (offsets_inverse bytes bits H) (offsets_inverse' t)). Qed.
+(* seek(tell()) changes nothing, inside or outside a block (r_sync: current_byte is the byte at _byte_offset-1) *)
+Theorem C20_seek_tell_identity : forall s, r_wf s -> r_sync s ->
+  r_seek (fst (r_tell s)) (snd (r_tell s)) s = (s, None).
+Proof. exact r_seek_tell_id. Qed.
+(* after seek, tell() is the target and the reader sees the file from exactly that bit on *)
+Theorem C20_seek_then_tell_and_view : forall bytes bits s, r_rem s = None -> 0 <= bytes -> 0 <= bits <= 7 ->
+  exists s', r_seek bytes bits s = (s', None) /\ r_tell s' = (bytes, bits) /\ r_wf s' /\ r_sync s' /\ r_rem s' = None /\
+             r_file s' = r_file s /\
+             r_view s' = skipn (Z.to_nat (to_bit_offset bytes bits)) (bytes_bits (r_file s)).
+Proof. exact r_seek_spec. Qed.
+(* inside a bounded block a seek keeps the bit position at which the block ends (position + max(0,
+   bits_remaining)), whatever the sign of bits_remaining, or raises exactly when the target lies past it *)
+Theorem C20_seek_in_block_reader : forall bytes bits s k, r_rem s = Some k -> 0 <= bytes -> 0 <= bits <= 7 ->
+  match r_seek bytes bits s with
+  | (s', None) => exists k', r_rem s' = Some k' /\ r_tell s' = (bytes, bits) /\
+                             r_bitpos s' + Z.max 0 k' = r_bitpos s + Z.max 0 k
+  | (s', Some e) => s' = s /\ e = EExc /\ r_bitpos s + k < to_bit_offset bytes bits /\ r_bitpos s < to_bit_offset bytes bits
+  end.
+Proof. exact r_seek_block. Qed.
+Theorem C20_seek_in_block_writer : forall bytes bits s k, w_rem s = Some k -> 0 <= bytes -> 0 <= bits <= 7 ->
+  match w_seek bytes bits s with
+  | (s', None) => exists k', w_rem s' = Some k' /\ w_tell s' = (bytes, bits) /\
+                             w_bitpos s' + Z.max 0 k' = w_bitpos s + Z.max 0 k
+  | (s', Some e) => s' = s /\ e = EExc /\ w_bitpos s + k < to_bit_offset bytes bits /\ w_bitpos s < to_bit_offset bytes bits
+  end.
+Proof. exact w_seek_block. Qed.
+Theorem C20_seek_writer : forall bytes bits s, w_rem s = None -> 0 <= bytes -> 0 <= bits <= 7 ->
+  exists s', w_seek bytes bits s = (s', None) /\ w_tell s' = (bytes, bits) /\ w_rem s' = None /\
+             w_file s' = w_file (w_flush s).
+Proof. exact w_seek_tell. Qed.
 
 (* non-vacuity *)
 Example C20_example :
